@@ -160,6 +160,7 @@ func genScen(prop string, seed uint64, idx int) scen {
 	r := vh.NewRng(seed*1000003 + uint64(idx)*7919 + 17)
 	sc := scen{Idx: idx, Prop: prop, Procs: vh.Pick(r, []int{1, 2, 4, 16}), Yield: vh.Pick(r, []int{0, 20, 60}),
 		SutServer: r.Bool(), React: r.Chance(60), Reason: r.Bool(), Code: 1000, rseed: r.Next()}
+	sc.Serial = r.Chance(25)
 	// fixed witnesses first, independent of the seed
 	if w := witnesses(prop); idx < len(w) {
 		s := w[idx]
@@ -285,6 +286,8 @@ func witnesses(prop string) []scen {
 			{Kind: kSlowFail, Writers: 3, Per: 1, K: 1, At: 0, Procs: 4, Late: 1, Witness: "blocked_sender_when_pump_exits"},
 			{Kind: kSlowFail, Writers: 3, Per: 1, K: 1, At: 0, Procs: 1, React: true, Late: 1, Witness: "blocked_sender_when_pump_exits"},
 			{Kind: kSlowFail, Writers: 8, Per: 2, K: 2, At: 0, Procs: 4, React: true, Late: 2, Witness: "blocked_sender_when_pump_exits"},
+			{Kind: kSlowFail, Writers: 3, Per: 1, K: 1, At: 0, Procs: 2, React: true, Late: 1, Serial: true, Witness: "error_report_waits_for_a_blocked_writer"},
+			{Kind: kSlowFail, Writers: 4, Per: 2, K: 2, At: 0, Procs: 4, React: true, Serial: true, Witness: "error_report_waits_for_a_blocked_writer"},
 			{Kind: kFullLocal, Writers: 3, Per: 1, K: 1, At: 0, Procs: 4, Late: 1, Witness: "blocked_sender_local_close"},
 			{Kind: kFullLocal, Writers: 4, Per: 2, K: 1, At: 0, Procs: 2, Reason: true, Late: 1, Witness: "blocked_sender_local_close"},
 		}
@@ -344,8 +347,8 @@ func emit(w *vh.Writer, sc scen, r result) {
 	if sc.Prop == "C12" {
 		nontrivial = closingHappened && inflight
 	}
-	key := fmt.Sprintf("%s|%v|%v|%d|%d|%d|%d|%d|%d|%d|%d|%v", sc.Kind, sc.Reason, sc.React, sc.Code, sc.Writers, sc.Per,
-		sc.Incoming, sc.At, sc.K, sc.Late, sc.Procs, sc.SutServer)
+	key := fmt.Sprintf("%s|%v|%v|%d|%d|%d|%d|%d|%d|%d|%d|%v|%v", sc.Kind, sc.Reason, sc.React, sc.Code, sc.Writers, sc.Per,
+		sc.Incoming, sc.At, sc.K, sc.Late, sc.Procs, sc.SutServer, sc.Serial)
 	kind := sc.Kind
 	if sc.Witness != "" {
 		kind = "witness:" + sc.Witness
